@@ -9,6 +9,7 @@ Exit 2  INCONCLUSIVE property=<id> reason=...   (a deciding monitor observed too
 """
 import collections
 import importlib
+from .shard import dimension_note
 import json
 import os
 import subprocess
@@ -239,7 +240,7 @@ def finish(mod, fold, repo, t0):
     coverage = {
         "evaluations": fold["evaluations"],
         "distinct_nontrivial": nontriv,
-        "rule": mod.RULE,
+        "rule": mod.RULE + dimension_note(mod),
         "samples": fold["samples"][:3],
         "exhaustive": False,
         "cases_generated": fold["cases"],
